@@ -283,6 +283,10 @@ def invented_bits(st, x, y_atom):
             rel.append(("ne", n))
     if st.disj:
         for d in st.disj:
+            # (the disjunction that links a 0/1 atom b2if(cond) to its condition is definitional: b2if is evaluated
+            #  directly, so it carries no extra knowledge)
+            if all(any(isinstance(a, tuple) and a and a[0] in ("b2if", "b2i") for l in conj for a in l.t) for conj in d):
+                continue
             for conj in d:
                 for l in conj:
                     if y_atom in _atoms_deep(l):
